@@ -48,6 +48,11 @@ THEOREMS = [
     'Nb.C08.tck_prefix_chunked',
     'Nb.C08.tck_prefix_shipped_buffer',
     'Nb.C08.xml_prefix',
+    'Nb.C08.xml_driver_prefix',
+    'Nb.C08.xml_driver_no_final_counterexample',
+    'Nb.C08.volume_prefix_per_read',
+    'Nb.C08.pair_prefix_per_read',
+    'Nb.C08.segments_prefix_per_read',
     'Nb.C08.codec_lift',
     'Nb.C08.codec_lift_volume',
     'Nb.C08.gen_constants_ok',
@@ -64,8 +69,18 @@ ASSUMPTIONS = [
     'delivers (m bytes, strict or not) is MEASURED with the decompressor alone and checked to be a plaintext prefix; '
     'at the few cuts where the measured view depends on the access pattern (stream codec-ambiguous, <0.5% of cases) '
     'only the oracle is applied',
-    'expat: "a strict prefix of a document lacking the root end tag raises" (GIFTI; CIFTI-2 XML lives in a NIfTI-2 '
-    'extension and is covered by the volume model)',
+    'expat (ASSUMPTION, not a result): "told that the document is finished while the root end tag is missing, expat '
+    'raises" (Expat.Contract). GIFTI / CIFTI-2 XML truncation safety rests on it; xml_prefix merely restates it. What '
+    'is proved about the driver: the block loop of ParseFile with its closing final call refuses every strict prefix '
+    'for EVERY expat satisfying the contract (xml_driver_prefix); without the final call a contract-satisfying expat '
+    'accepts a prefix (xml_driver_no_final_counterexample = seeded change C08_6). The block loop itself is pyexpat '
+    '(CPython), nibabel calls parser.ParseFile; CIFTI-2 XML lives in a NIfTI-2 extension and a truncated file never '
+    'reaches expat (cifti_prefix uses only the volume model)',
+    'end-of-stream behaviour of decompressors: Src fixes it per file object (lax / strict); the volume readers are '
+    'additionally proved for a PER-READ decision (ReadsOf: every request independently delivers the available part or '
+    'raises, a function of the request (pos, n)): volume_prefix_per_read, pair_prefix_per_read, '
+    'segments_prefix_per_read via monotonicity (result = lax result or error). TRK/TCK/partial-slice readers are proved '
+    'for the two pure behaviours only (nibabel cannot write compressed tractograms)',
     'np.memmap refuses (ValueError) a map longer than the file; OS mmap / page cache are not modelled',
     'nibabel cannot WRITE compressed TCK/TRK (seek in write mode) so tractograms are swept uncompressed only',
     'TCK chunk loop: modelled (tckChunkLoop) and proved equal to the whole-buffer model for every buffer size that is a '
@@ -693,7 +708,9 @@ def mk_case(spec, member, mode, k, stream='prefix', slicer=None, how=''):
         elif mode in (3, 4) and fmt != 'cifti2':
             isz = np.dtype(spec['dtype']).itemsize
             tail = f"s:{isz}:{','.join(map(str, spec['shape']))}:{fmt_slicer(slicer)}"
-        line = (f"C08 vol {L['hs']} {L['sniff']} {L['exts']} {fixed} {L['ftr']} {mem} {L['e0']} {pl} {L['pad']} "
+        # Class.from_filename does not go through load(): no sniff of the header file
+        sniff = 0 if 'cls' in how.split('+') else L['sniff']
+        line = (f"C08 vol {L['hs']} {sniff} {L['exts']} {fixed} {L['ftr']} {mem} {L['e0']} {pl} {L['pad']} "
                 f"{L['n']} {L['fl']} {mm} {int(bool(comp))} {tail} {k} {m} {st}")
     elif fmt == 'trk':
         npts = ','.join(map(str, spec['npts'])) or '-'
